@@ -453,7 +453,7 @@ func fieldOwnerName(w *World, fv *types.Var) string {
 			}
 		}
 	}
-	return "?." + fv.Name()
+	return "?." + fvName(fv)
 }
 
 func findFieldPath(st *types.Struct, fv *types.Var, prefix string, d int) string {
@@ -463,7 +463,7 @@ func findFieldPath(st *types.Struct, fv *types.Var, prefix string, d int) string
 	for i := 0; i < st.NumFields(); i++ {
 		f := st.Field(i)
 		if f == fv {
-			return prefix + "." + f.Name()
+			return prefix + "." + fvName(f)
 		}
 		t := f.Type()
 		if sl, ok := t.Underlying().(*types.Slice); ok {
@@ -473,7 +473,7 @@ func findFieldPath(st *types.Struct, fv *types.Var, prefix string, d int) string
 			continue
 		}
 		if sub, ok := t.Underlying().(*types.Struct); ok {
-			if n := findFieldPath(sub, fv, prefix+"."+f.Name(), d+1); n != "" {
+			if n := findFieldPath(sub, fv, prefix+"."+fvName(f), d+1); n != "" {
 				return n
 			}
 		}
